@@ -18,10 +18,16 @@ REQUIRED = [P + n for n in [
     "combineClearCa_spec", "combineSrcCa_spec", "combineOverCa_spec", "combineOverReverseCa_spec", "combineInCa_spec",
     "combineInReverseCa_spec", "combineOutCa_spec", "combineOutReverseCa_spec", "combineAtopCa_spec",
     "combineAtopReverseCa_spec", "combineXorCa_spec", "combineAddCa_spec",
-    # integer PDF blend mode Multiply (exact integer rule)
-    "combineMultiplyU_spec", "combineMultiplyCa_spec",
-    # separable PDF blend modes: per-channel structure (any blend function), alpha channel
-    "pdfSeparableU_channels_partial", "pdfSeparableCa_channels_partial", "pdfFinish_nat", "pdfAlpha_round",
+    # integer PDF blend mode Multiply (exact integer rule; within 381/255 step of the exact numerator, sharp)
+    "combineMultiplyU_spec", "combineMultiplyCa_spec", "multiply_channel_nearest", "multiply_channel_nearest_sharp",
+    # the seven PDF_SEPARABLE_BLEND_MODE combiners: structure (any blend function) ...
+    "pdfSeparableU_pack", "pdfSeparableCa_pack", "pdfFinish_nat", "pdfAlpha_round",
+    # ... exact integer numerator for ALL inputs (no wrap, never negative), every channel, unified + component alpha
+    "num_nonneg", "num_lt", "pdfNumC_exact", "pdfSeparableU_exact", "pdfSeparableCa_exact",
+    # ... premultiplied operands: clamp inactive, channel = num/255 to nearest (|255 r - num| <= 127, sharp); alpha = union
+    "pdf_num_premult", "pdf_channel_nearest", "pdf_channel_nearest_sharp", "pdf_alpha_nearest",
+    # ... whole pixels through the dispatch tables
+    "pdf_unified_correct", "pdf_componentAlpha_correct",
     # whole pixels through the dispatch tables
     "combineU_lt", "combineCa_lt", "unified_correct", "componentAlpha_correct",
     # bridges: regenerated macro bodies = model
@@ -30,6 +36,17 @@ REQUIRED = [P + n for n in [
     "gen_UN8x4_MUL_UN8", "gen_UN8x4_MUL_UN8_ADD_UN8x4", "gen_UN8x4_MUL_UN8_ADD_UN8x4_MUL_UN8", "gen_UN8x4_MUL_UN8x4",
     "gen_UN8x4_MUL_UN8x4_ADD_UN8x4", "gen_UN8x4_MUL_UN8x4_ADD_UN8x4_MUL_UN8", "gen_UN8x4_ADD_UN8x4",
     "gen_MUL_UN8_round", "gen_UN8x4_MUL_UN8_ADD_UN8x4_lanes",
+]]
+
+# the exact integer numerators are the rational PDF equation of Spec/PdfBlend.lean (Props/C01Pdf.lean)
+PP = "Pixman.Props.C01Pdf."
+REQUIRED_PDF = [PP + n for n in [
+    "mode_tables", "modeBlendQ_pdf", "num_is_pdf", "pdf_channel_near", "pdf_alpha_near", "multiply_num_is_pdf",
+    "multiply_channel_near", "pdf_unified_near", "pdf_componentAlpha_near",
+    "specPixel_nomask", "pdf_nomask_specPixel", "multiply_nomask_specPixel",
+    # Props/C01PdfPixel.lean: the whole request (flags, regenerated optimize_operator, mask elision, fetch, combiner, store)
+    "blend_modes_not_replaced", "pdf_unifiedPixel_mask_elision", "compositePixel_pdf", "multiply_unified_correct",
+    "multiply_componentAlpha_correct", "multiplyUnifiedPixel_mask_elision", "compositePixel_multiply",
 ]]
 
 RULE = ("1-row composites of 1..19 pixels through pixman_image_composite32, once per implementation chain (default; "
@@ -42,7 +59,8 @@ RULE = ("1-row composites of 1..19 pixels through pixman_image_composite32, once
 
 
 def run(ctx):
-    broken = ctx.lean_obligations("Pixman.Props.C01", REQUIRED + C01float.REQUIRED_FLOAT, extra_modules=["Pixman.Props.C01Float"])
+    broken = ctx.lean_obligations("Pixman.Props.C01", REQUIRED + REQUIRED_PDF + C01float.REQUIRED_FLOAT,
+                                  extra_modules=["Pixman.Props.C01Float", "Pixman.Props.C01Pdf", "Pixman.Props.C01PdfPixel"])
     quick = ctx.tier == "quick"
     findings = cc.run_streams(ctx, 0, 60000 if quick else 150000, 16 if quick else 64)
     ctx.cov["rule"] = RULE
@@ -51,9 +69,13 @@ def run(ctx):
     if broken and not ctx.violations:
         ctx.broken_obligations_verdict(broken, "composite correspondence stream (both chains) and Spec oracle found no failing input")
     ctx.assumptions += [
-        "narrow pipeline stream: the 13 Porter-Duff/ADD operators (exact Spec) and the 8 integer PDF blend modes (model "
-        "correspondence; real-valued PDF equation within 0.5 step, MULTIPLY 1.5, on premultiplied inputs) on formats of at "
-        "most 8 bits per channel with 8/16/32 bpp; no transform, no repeat effect, no alpha map, no dither",
+        "narrow pipeline stream: the 13 Porter-Duff/ADD operators (exact Spec) and the 8 integer PDF blend modes (exact "
+        "integer numerator rule Spec.PdfInt / Spec.multiplyChannel on every generated format and ALL pixel values; on "
+        "a8r8g8b8-like destinations and premultiplied inputs additionally the real-valued PDF 32000 equation within the "
+        "proved 127/255 of a step, MULTIPLY 381/255) on formats of at most 8 bits per channel with 8/16/32 bpp; no "
+        "transform, no repeat effect, no alpha map, no dither",
+        "integer PDF blend modes with a mask: the source operand of the PDF equation is the masked source as the 8-bit "
+        "pipeline rounds it (s' = rnd(s*m), alpha' = rnd(alpha*m)); the distance to an exact rational mask product is not bounded",
         "float pipeline stream (checks/C01float.py): see the float_* assumptions below; 1/4/24-bpp and indexed/YUV formats not generated",
         "SIMD loop structure is exercised by the rows but not modelled: the model is per pixel",
         "macro arguments and temporaries of pixman-combine32.h are unsigned values of at most 32 bits (uint32_t arithmetic)",
